@@ -4,7 +4,7 @@ CONSTANTS
   NLog = 2
   MaxSeq = 2
   Caps = {99, 3}
-  StoreChoices <- AllIntervals
+  StoreChoices <- TwoLogs
   LogsChoices <- LogsAll
   MaxMut = 2
   MutKinds = {"prune", "delete", "append"}
